@@ -213,10 +213,31 @@ func runNodeHistory(tp *sim.Tape, tier, prop string, o *runOut) {
 	judged := 0
 	collectedSeen := 0
 	desync := false
+	var openMsg *storage.Message
 	for i := 0; i < length && o.viol == nil; i++ {
 		e := genEvent(tp, m, f, focus)
 		msg := f.Message(e, i)
 		hist = append(hist, e.String())
+		if prop == "C05" && openMsg != nil && !desync && tp.Choose(12, "lookAlikeRound?") == 0 {
+			// the round's own opening proposal arrives once more under an identifier that differs
+			// from the round's by white space or letter case only (identifiers are free text of an
+			// unauthenticated message): that is a message of another round, and whatever becomes of
+			// it, the round itself - cancelled, under way or finished - must not change
+			padKind := tp.Choose(5, "padKind")
+			x := *openMsg
+			x.DkgRoundID = []string{f.Round + " ", " " + f.Round, f.Round + "\n", "\t" + f.Round + " ", strings.ToUpper(f.Round)}[padKind]
+			x.ID = fmt.Sprintf("h-%d-lookalike", i)
+			b0 := nd.RoundDump(f.Round)
+			perr := nd.Svc.ProcessMessage(x)
+			o.steps++
+			o.stats.Fault("opening-proposal-under-a-look-alike-round-id")
+			o.log.Add("opening proposal under look-alike id %q -> err=%v", x.DkgRoundID, perr != nil)
+			if b1 := nd.RoundDump(f.Round); normDump(b0) != normDump(b1) {
+				fail(o, prop, fmt.Sprintf("round-changed-by-message-under-a-look-alike-id/%s/in-%s", []string{"trailing-space", "leading-space", "trailing-newline", "tab-and-space", "upper-case"}[padKind], m.Ph),
+					fmt.Sprintf("an opening proposal under the id %q changed the persisted round %q (state now %s); history: %s", x.DkgRoundID, f.Round, nd.RoundState(f.Round), strings.Join(hist, " ")))
+				break
+			}
+		}
 		before := nd.RoundDump(f.Round)
 		beforeSnap := nd.Snapshot()
 		beforePh := m.Ph
@@ -227,6 +248,10 @@ func runNodeHistory(tp *sim.Tape, tier, prop string, o *runOut) {
 		saved := m.Clone()
 		mPrev := *m
 		r := m.Step(e)
+		if e.Kind == EvInit && r.Exp == ExpAccept && openMsg == nil {
+			c := msg
+			openMsg = &c
+		}
 		if m.KeyVar >= 0 {
 			f.UseKeyVariant(m.KeyVar)
 		}
